@@ -1,6 +1,7 @@
 import SpoxModel.Lemmas.Ctx
 import SpoxModel.Generated.CtxIR
 import SpoxModel.Generated.CtxWrites
+import SpoxModel.Generated.ModuleState
 /-!
 # C16 — scoped settings are restored on every exit from their block
 
@@ -131,6 +132,15 @@ theorem write_sites_covered : ∀ s ∈ Generated.CtxWrites.sites, siteCovered s
 theorem write_sites_defaults :
     ∀ i ∈ [0, 1, 2], (Generated.CtxWrites.sites.filter (fun s => s.setting == i && s.kind == "default")).length = 1 := by
   decide +kernel
+
+/-- Obligation (tie G): the process-wide mutable state of spox's core modules - names bound to mutable containers at
+    module or class level, caching decorators, `global` re-bindings, state kept on function objects - is exactly this
+    list (two registries of operator schemas, filled at import). A new cache or memo (through which something
+    computed under one value of a setting could outlive the block, keyed without the setting) fails this. -/
+theorem module_state_inventory :
+    Generated.ModuleState.items =
+      [("src/spox/_schemas.py", "<module>", "DOMAINS", "set"),
+       ("src/spox/_schemas.py", "<module>", "DOMAIN_VERSIONS", "dict")] := by decide +kernel
 
 /-- Non-vacuity: a nested, raising program over all three managers on the generated IR. -/
 example : (runTop Generated.CtxIR.managers
